@@ -1,5 +1,6 @@
 import PytaskProofs.Lemmas.EngineReport
 import PytaskProofs.Lemmas.EngineExit
+import PytaskProofs.Lemmas.EngineNoCrash
 import PytaskModel.BuildTop
 /-!
 # C08 — reported outcomes and exit codes are truthful; build() always returns
@@ -141,6 +142,64 @@ theorem C08_fail_iff {w : World} {picks : List Nat} {so so' : Sorter} {s' : Sess
     rcases hpa.report with hr | hr
     · rw [he] at hr; exact hr
     · rw [he] at hr; cases hr.1
+
+/-- **C08_no_crash.** With distinct task ids (what collection guarantees), `update_states_in_database`
+never raises in the SUCCESS / PERSISTENCE branch: whenever the protocol ends without exception every
+neighbour of the task has a state (dependencies were checked at setup even for forced tasks — the F14
+repair —, products at teardown). So the build loop is never aborted by an exception of pytask's own. -/
+theorem C08_no_crash {w : World} {picks : List Nat} {so so' : Sorter} {s' : Sess}
+    (hdag : createDag P cfg = .ok (g, marks)) (hids : (P.tasks.map (·.id)).Nodup)
+    (hloop : buildLoop F P g cfg so { w := w, skipMarks := marks } picks = .ok (so', s')) : s'.crashed = false :=
+  (run_of_buildLoop _ _ _ _ _ hloop).no_crash hdag hids rfl
+
+/-- **C08_exactly_one.** Unless the build stopped early (failure limit reached), once the scheduler is
+exhausted every collected task has exactly one report. -/
+theorem C08_exactly_one {w : World} {picks : List Nat} {so so' : Sorter} {s' : Sess}
+    (hdag : createDag P cfg = .ok (g, marks)) (hids : (P.tasks.map (·.id)).Nodup)
+    (hso : fromDag g isTaskV (prioFn P) = .ok so)
+    (hloop : buildLoop F P g cfg so { w := w, skipMarks := marks } picks = .ok (so', s'))
+    (hstop : s'.stop = false) (hdone : so'.isActive = false) :
+    ∀ t ∈ P.tasks, (s'.reports.map Prod.fst).count t.id = 1 :=
+  (C08_one_report hdag hso hloop).2 hstop (C08_no_crash hdag hids hloop) hdone
+
+/-- **C08_exit_zero_iff.** Without phase faults: exit code 0 iff no task is reported FAIL. -/
+theorem C08_exit_zero_iff {w : World} {picks : List Nat} {r0 : Result}
+    (hdag : createDag P cfg = .ok (g, marks)) (hids : (P.tasks.map (·.id)).Nodup)
+    (hb : build F P cfg w picks = .ok r0) : r0.exit = 0 ↔ ∀ t, (t, Outcome.fail) ∉ r0.reports := by
+  constructor
+  · intro h0 t ht
+    have := C04_exit' hdag hb ht
+    omega
+  · intro hno
+    obtain ⟨so, hso⟩ := fromDag_ok_of_createDag hdag (prioFn P)
+    rcases build_run hdag hb with ⟨so1, so', s', hso1, hrun, hr, _, _, _, he⟩ | ⟨_, _, _, he⟩
+    · have hcr := hrun.no_crash hdag hids rfl
+      have hany : s'.reports.any (fun r => r.2 == Outcome.fail) = false := by
+        rw [← hr]
+        apply Bool.eq_false_iff.2
+        intro h
+        obtain ⟨⟨t, o⟩, hm, ho⟩ := List.any_eq_true.1 h
+        have : o = Outcome.fail := by simpa using ho
+        subst this
+        exact hno t hm
+      rw [he, hcr, hany]
+      decide
+    · -- the sorter always accepts the graph `create_dag` returned
+      exfalso
+      unfold build at hb
+      rw [hdag] at hb
+      simp only [hso] at hb
+      -- `he` says the exit code is the one of the sorter-error branch; that branch was not taken
+      cases hl : buildLoop F P g cfg so { w := w, skipMarks := marks } picks with
+      | error e => rw [hl] at hb; cases hb
+      | ok pr =>
+        rw [hl] at hb
+        simp only [Except.ok.injEq] at hb
+        subst hb
+        have hcr := (run_of_buildLoop _ _ _ _ _ hl).no_crash hdag hids rfl
+        have hr : pr.2.reports = [] := by assumption
+        simp [hcr, hr] at he
+        revert he; decide
 
 /-! ## `build()`: the try/except ladder -/
 
